@@ -579,6 +579,8 @@ class QubitCircuit:
                     basis_1q.append(gate)
                 else:
                     pass
+            # IDLE is allowed in the basis, but only the rotations count
+            basis_1q = [g for g in ["RX", "RY", "RZ"] if g in basis_1q]
             if len(basis_1q) == 1:
                 raise ValueError("Not sufficient single-qubit gates in basis")
             if len(basis_1q) == 0:
